@@ -187,3 +187,8 @@ _extend('C08', 'ADDED (unit I-fetch): an ordering is claimed for index-delivered
 _extend('C07', 'ADDED (unit G-aggtail, E-truthy/e_truthy_having): execute_with_aggregation from the WHERE filter on - one group without GROUP BY also over zero rows, one row per group kept by HAVING, '
         'values in select-list order; the HAVING keep/drop table makes the same decision as the WHERE reference.')
 _extend('C10', 'ADDED (unit I-insert): user-defined UNIQUE indexes are checked before the table is touched by Operations::insert_row.')
+
+_extend('C09', 'ADDED (units D-apply, U-apply): how DELETE and UPDATE are APPLIED once the rows are selected - over a trace of storage operations: DELETE removes exactly the collected positions in one '
+        'delete_where call, rebuilds the indexes directly afterwards and records one Delete per row; UPDATE writes every prepared row at its position, then maintains the indexes and records one Update '
+        'per row, in order. Nothing is claimed for the error paths in the middle of a statement.')
+_extend('C14', 'ADDED (units D-apply, U-apply): DELETE and UPDATE record one change per affected row, with the rows they collected / prepared, in order, after the table was changed.')
